@@ -23,7 +23,7 @@ def handle (line : String) : String :=
   let bad := jobj [("out", jstr "bad-op")]
   match tokens line with
   | "stats" :: periods :: n :: rest =>
-    match periods.toNat?, n.toNat?, (pairs? rest : Option (List (Int × α))) with
+    match (num? periods : Option α), n.toNat?, (pairs? rest : Option (List (Int × α))) with
     | some periods, some n, some curve =>
       if curve.length != n then bad else
       let eq := curve.map (·.2)
@@ -37,7 +37,7 @@ def handle (line : String) : String :=
             ("drawdowns", jlist (dd.map jnum)), ("max_drawdown", jnum maxdd), ("max_drawdown_duration", toString dur),
             ("mean_returns", jnum (meanOf rs)), ("stdev_returns", jnum (popStd rs)),
             ("cagr", jnum (createCagr cum periods)),
-            ("annualised_vol", jnum (popStd rs * TransOps.sqrt (NumOps.ofInt periods))),
+            ("annualised_vol", jnum (popStd rs * TransOps.sqrt periods)),
             ("sharpe", jnum (createSharpe rs periods)), ("sortino", jnum (createSortino rs periods)),
             ("weekly", aggJson (aggregateReturns .weekly dated)),
             ("monthly", aggJson (aggregateReturns .monthly dated)),
